@@ -41,6 +41,10 @@ def check(c: Check):
     sweep_records(c, 'C03-rec', ['exactly_lib.test_case'], floor=10)
     clause_k(c)
     from .common import check_no_use_of_absent_value
+    from .common import check_nothing_is_swallowed
+    check_nothing_is_swallowed(c, 'C03-m', ['exactly_lib.impls', 'exactly_lib.type_val_deps', 'exactly_lib.test_case',
+                                            'exactly_lib.symbol', 'exactly_lib.execution', 'exactly_lib.tcfs'], 500,
+                               'a validator that cannot examine what it validates must not report success')
     check_no_use_of_absent_value(c, 'C03-l', ['exactly_lib.impls', 'exactly_lib.type_val_deps', 'exactly_lib.test_case',
                                              'exactly_lib.symbol', 'exactly_lib.execution'], 500,
                                  'an optional validator that is skipped when present validates nothing, silently')
